@@ -28,6 +28,13 @@ RULE = ('(1) exhaustive: the 103 exception classes of the model enum (names, dir
         'a few non-prefix corruptions; (3) dtype/shape mismatch matrix on the dict, NPY and S3 stores; (4) store-level '
         'faults (missing directory, EACCES as an unprivileged uid, ENOTDIR, EISDIR, 401/403, missing/empty bucket, '
         'connection refused); (5) the same faults under ChunkStoreVisFlagsWeights of a v4 data set (NPY and S3); '
+        '(5b) data sets (T, F <= 6; B <= 4, or 4 / 12 through VisibilityDataV4) whose four arrays are chunked '
+        'INDEPENDENTLY (identical / same block counts with shifted time and/or channel boundaries / independent / finer), '
+        '30% with a dump/channel preselection, on a real NPY store or behind the loopback S3 server: every chunk of every '
+        'array damaged once (sampled in the quick tier) plus random scenarios of 1-3 chunks: truncated at offsets around '
+        'magic / header end / last byte and random ones (S3: body cut under the whole Content-Length), removed (404), bad '
+        'magic, other dtype / shape, S3: 401 / 403; loaded through ChunkStoreVisFlagsWeights or d.vis / d.weights / '
+        'd.raw_flags and compared element by element with the extracted model and spec (wire 82); '
         '(6) strace of put_chunk compared with the model op list, then SIGKILL / ENOSPC / EIO / EACCES injected at '
         'each system call of the put (quick: a sample) with and without a previous chunk, and a genuine short write '
         'on a full tmpfs (plain and direct_write, with and without a previous chunk); (7) put_chunk_noraise under a '
@@ -47,7 +54,9 @@ ASSUMPTIONS = ['S3 cases use retries=0 so a persistent truncation exhausts the r
                'count / EFBIG instead of killing the process); without strace only its property half runs',
                'after the model run of a limited put has ended (error raised) the real code may issue further FAILING '
                'write calls (BufferedWriter flushing again on close): accepted, they have no effect',
-               'header text parser of the executable model handles the canonical header numpy writes for simple dtypes']
+               'header text parser of the executable model handles the canonical header numpy writes for simple dtypes',
+               'part 5b: stored values are small integers (exact products), vis never 0 so that a zero means zero-filled; when '
+               'several chunks make a load fail any one of their exceptions is accepted (scheduler order is not modelled)']
 
 IDX = {ctor: i for i, (ctor, _) in enumerate(EXN)}
 _CLASSES = None
@@ -345,6 +354,17 @@ def part_npy_truncation(ctx, tmp):
                              real[:4], dec[:4], 'model decoder differs from np.load on a complete file', kind='tie')
             exps = ctx.model([[81, [10, list(full), want_of(dt, shape)]]])[0]
             hdr_end = len(full) - x.nbytes
+            # printer tie: the header text numpy / katdal wrote is print_hdr_c (the printer of the round-trip theorem)
+            nb = 2 if full[6] == 1 else 4
+            htext = full[8 + nb:hdr_end]
+            pad = len(htext) - len(htext.rstrip(b' \n')) - 1
+            printed = ctx.model([[8, [4, want_of(dt, shape), pad]]])[0]
+            ctx.traces_validated += 1
+            ctx.count('header_printer_tie')
+            if bytes(printed) != htext or int.from_bytes(full[8:8 + nb], 'little') != len(htext):
+                ctx.disagree('part=npy;what=header_printer;dtype=%s' % dt, dict(part='npy_truncation', dtype=dt, shape=list(shape),
+                             direct_write=direct, offset=0), htext.decode('latin1'), bytes(printed).decode('latin1'),
+                             'the header text of a stored chunk is not what the model printer prints', kind='tie')
             for k in offsets(ctx, len(full), hdr_end, 220 if not direct else 60):
                 with open(fn, 'wb') as f:
                     f.write(full[:k])
@@ -857,6 +877,527 @@ def part_vfw(ctx, tmp):
         ctx.note_case(('vfw', 's3', 'refused'), nontrivial=True)
     finally:
         srv.close()
+
+
+# ------------------------------------------------------------------------------------------------
+# part 5b: damaged chunks under ChunkStoreVisFlagsWeights / a v4 data set whose arrays are chunked DIFFERENTLY
+#          (wire 82 = Model/VfwDamage.v): zero-filled AND data_lost exactly on the damaged chunk's elements
+
+DMG_DT = {'correlator_data': np.complex64, 'flags': np.uint8, 'weights': np.uint8, 'weights_channel': np.float32}
+DMG_STYLES = ['identical', 'shifted_time', 'shifted_freq', 'shifted_both', 'random', 'finer']
+
+
+def _composition(rng, n, k):
+    """n as an ordered sum of k positive parts, uniformly."""
+    cuts = sorted(rng.sample(range(1, n), k - 1)) if k > 1 else []
+    return [b - a for a, b in zip([0] + cuts, cuts + [n])]
+
+
+def _rnd_chunks(rng, n):
+    r = rng.random()
+    if r < 0.15:
+        return [n]
+    if r < 0.3:
+        return [1] * n
+    return _composition(rng, n, rng.randint(1, n))
+
+
+def _shifted(rng, base):
+    """Another chunking of the same axis with the SAME number of chunks but at least one different boundary."""
+    n, k = sum(base), len(base)
+    if k < 2 or n <= k:
+        return None
+    for _ in range(50):
+        c = _composition(rng, n, k)
+        if c != base:
+            return c
+    return None
+
+
+def dmg_geometry(rng, style, path):
+    """One data set geometry: T x F x B and the chunking of each of the four arrays."""
+    for _ in range(200):
+        T, F = rng.randint(2, 6), rng.randint(2, 6)
+        B = rng.choice([4, 12]) if path == 'v4' else rng.choice([1, 2, 3, 4])
+        if style.startswith('shifted'):
+            T, F = max(T, 3), max(F, 3)
+        dims = [T, F, B]
+        fl = [_rnd_chunks(rng, n) for n in dims]
+        if style in ('shifted_time', 'shifted_both'):
+            fl[0] = _composition(rng, T, rng.randint(2, T - 1))
+        if style in ('shifted_freq', 'shifted_both'):
+            fl[1] = _composition(rng, F, rng.randint(2, F - 1))
+        chunks = {'flags': fl}
+        ok = True
+        for name in ('correlator_data', 'weights', 'weights_channel'):
+            if style == 'identical':
+                c = [list(x) for x in fl]
+            elif style == 'random':
+                c = [_rnd_chunks(rng, n) for n in dims]
+            elif style == 'finer':
+                c = [[1] * n if rng.random() < 0.6 else _rnd_chunks(rng, n) for n in dims]
+            else:
+                c = [list(x) for x in fl]
+                axes = {'shifted_time': [0], 'shifted_freq': [1], 'shifted_both': [0, 1]}[style]
+                for ax in axes:
+                    sh = _shifted(rng, fl[ax])
+                    if sh is None:
+                        ok = False
+                    else:
+                        c[ax] = sh
+            chunks[name] = c[:2] if name == 'weights_channel' else c
+        if not ok:
+            continue
+        pre = []
+        if rng.random() < 0.3:
+            for n in (T, F)[:rng.choice([1, 2])]:
+                a, b = sorted(rng.sample(range(n + 1), 2))
+                pre.append(None if rng.random() < 0.3 else [a, b])
+        return dict(T=T, F=F, B=B, chunks=chunks, pre=pre, style=style, path=path, seed=rng.randint(0, 10 ** 6))
+    raise RuntimeError('no geometry for ' + style)
+
+
+def dmg_values(geo):
+    """Stored values: vis never 0 (a zero means zero-filled), weights > 0, stored flags rarely carry data_lost."""
+    rs = np.random.RandomState(geo['seed'])
+    T, F, B = geo['T'], geo['F'], geo['B']
+    vis = (rs.randint(1, 100, (T, F, B)) + 1j * rs.randint(0, 100, (T, F, B))).astype(np.complex64)
+    flags = (rs.randint(0, 256, (T, F, B)) & 0xf7).astype(np.uint8)
+    flags |= (rs.random_sample((T, F, B)) < 0.05).astype(np.uint8) * np.uint8(8)
+    weights = rs.randint(1, 9, (T, F, B)).astype(np.uint8)
+    wc = rs.randint(1, 5, (T, F)).astype(np.float32)
+    return dict(correlator_data=vis, flags=flags, weights=weights, weights_channel=wc)
+
+
+def _enc_vis(a):
+    a = np.asarray(a)
+    return np.rint(a.real).astype(np.int64) * 256 + np.rint(a.imag).astype(np.int64)
+
+
+def _chunk_starts(chunks, idx):
+    return [int(sum(c[:i])) for c, i in zip(chunks, idx)]
+
+
+def _chunk_slices(chunks, idx):
+    return tuple(slice(int(sum(c[:i])), int(sum(c[:i + 1]))) for c, i in zip(chunks, idx))
+
+
+def _all_idx(chunks):
+    return [tuple(int(i) for i in ix) for ix in np.ndindex(*[len(c) for c in chunks])]
+
+
+DMG_STATUS = {'status_401': 401, 'status_403': 403}      # S3 only: the request itself is refused (AuthorisationFailed)
+
+
+def dmg_bytes(kind, offset, full, arr):
+    """What is stored under the chunk's name after the damage (None = nothing)."""
+    from katdal.chunkstore import npy_header_and_body
+    if kind == 'remove':
+        return None
+    if kind in DMG_STATUS:
+        return ('status', DMG_STATUS[kind])
+    if kind == 'truncate':
+        return full[:offset]
+    if kind == 'bad_magic':
+        return b'\x93NUMPX' + full[6:]
+    if kind == 'bad_dtype':
+        b = arr.astype('<f8') if arr.dtype != np.dtype('<f8') else arr.astype('<f4')
+    elif kind == 'bad_shape':
+        b = np.concatenate([arr, arr], axis=0)
+    else:
+        raise ValueError(kind)
+    h, bb = npy_header_and_body(np.ascontiguousarray(b))
+    return bytes(h) + bb.tobytes()
+
+
+def dmg_norm_window(w, n):
+    if w is None:
+        return []
+    lo, hi = w
+    return [] if (lo == 0 and hi >= n) else [lo, hi]
+
+
+def dmg_py_spec(geo, vals, damages):
+    """Independent numpy statement of the property for this part: (must_fail, vis, weights, flags) over the window."""
+    T, F, B = geo['T'], geo['F'], geo['B']
+    miss = {k: np.zeros((T, F) if k == 'weights_channel' else (T, F, B), bool) for k in ARRAYS}
+    sel = tuple(slice(None) if w is None else slice(w[0], w[1]) for w in geo['pre'])
+    sel = sel + (slice(None),) * (2 - len(sel))
+    must_fail = False
+    for dm in damages:
+        sl = _chunk_slices(geo['chunks'][dm['array']], dm['idx'])
+        inwin = np.zeros(miss[dm['array']].shape, bool)
+        inwin[sl] = True
+        if dm['kind'] in ('bad_dtype', 'bad_shape') or dm['kind'] in DMG_STATUS:
+            must_fail = must_fail or bool(inwin[sel[:inwin.ndim]].any())
+            if dm['kind'] in DMG_STATUS:
+                miss[dm['array']][sl] = True     # (irrelevant when the load fails; mirrors the Coq spec)
+        else:
+            miss[dm['array']][sl] = True
+    mv = miss['correlator_data']
+    mw = miss['weights'] | miss['weights_channel'][..., None]
+    ev = np.where(mv, 0, vals['correlator_data'])[sel]
+    ew = np.where(mw, 0, vals['weights'].astype(np.float32) * vals['weights_channel'][..., None])[sel]
+    ef = (np.where(miss['flags'], 8, vals['flags']) | np.where(mv | mw, 8, 0)).astype(np.uint8)[sel]
+    return must_fail, _enc_vis(ev), ew.astype(np.int64), ef.astype(np.int64)
+
+
+def dmg_classify(obs, impl, exp):
+    if impl.shape != exp.shape:
+        return 'shape'
+    bad = impl != exp
+    if obs == 'flags':
+        i8, e8 = impl & 8, exp & 8
+        if np.any((i8 == 0) & (e8 != 0)):
+            return 'data_lost_not_set'
+        if np.any((i8 != 0) & (e8 == 0)):
+            return 'data_lost_spurious'
+        return 'other_bits_changed'
+    if np.any(bad & (exp == 0)):
+        return 'damaged_not_zeroed'
+    if np.any(bad & (impl == 0)):
+        return 'healthy_zeroed'
+    return 'wrong_value'
+
+
+def dmg_first_bad(impl, exp):
+    if impl.shape != exp.shape:
+        return dict(impl_shape=list(impl.shape), expected_shape=list(exp.shape))
+    at = np.argwhere(impl != exp)[0].tolist()
+    return dict(at=at, impl=int(impl[tuple(at)]), expected=int(exp[tuple(at)]), n_bad=int((impl != exp).sum()))
+
+
+def dmg_fault_label(dm, hdr_end):
+    if dm['kind'] != 'truncate':
+        return dm['kind']
+    k = dm['offset']
+    return 'truncate_' + ('zero' if k == 0 else 'header' if k < hdr_end else 'body')
+
+
+class _DmgStore:
+    """One data set on disk (and optionally behind the loopback S3 server) that can be damaged and restored."""
+
+    def __init__(self, geo, tmp, srv=None):
+        from katdal.chunkstore_npy import NpyFileChunkStore
+        self.geo, self.tmp, self.srv = geo, tmp, srv
+        self.vals = dmg_values(geo)
+        self.x = None
+        os.makedirs(tmp, exist_ok=True)
+        pre = {}
+        raw = geo['pre']
+        if len(raw) > 0 and raw[0] is not None:
+            pre['dumps'] = slice(raw[0][0], raw[0][1])
+        if len(raw) > 1 and raw[1] is not None:
+            pre['channels'] = slice(raw[1][0], raw[1][1])
+        chunks = {k: tuple(tuple(int(c) for c in ax) for ax in geo['chunks'][k]) for k in ARRAYS}
+        if geo['path'] == 'v4':
+            ants = ('m000',) if geo['B'] == 4 else ('m000', 'm001')
+            self.x = v4.build_v4(T=geo['T'], F=geo['F'], ants=ants, arrays=dict(self.vals), chunks=chunks, tmp=tmp,
+                                 seed=geo['seed'], source_kwargs={'preselect': pre} if pre else None, acts=((0, 'track'),))
+            self.store, self.info = self.x.store, self.x.chunk_info
+        else:
+            self.store = NpyFileChunkStore(tmp)
+            self.info = {k: v4.put_array(self.store, 'cb-sdp-l0', k, self.vals[k], chunks[k]) for k in ARRAYS}
+        self.index = tuple(slice(None) if w is None else slice(w[0], w[1]) for w in raw)
+        self.s3 = None
+        if srv is not None:
+            for root, _, fs_ in os.walk(tmp):
+                for f in fs_:
+                    if f.endswith('.npy'):
+                        q = os.path.join(root, f)
+                        srv.put('/' + os.path.relpath(q, tmp), open(q, 'rb').read())
+            self.s3 = s3_store(srv.url)
+
+    def rel(self, name, idx):
+        starts = _chunk_starts(self.geo['chunks'][name], idx)
+        return os.path.join(self.info[name]['prefix'], name, '_'.join('%05d' % s for s in starts) + '.npy')
+
+    def original(self, name, idx):
+        return open(os.path.join(self.tmp, self.rel(name, idx)), 'rb').read()
+
+    def apply(self, name, idx, data, full, via_s3):
+        rel = self.rel(name, idx)
+        if via_s3:
+            if isinstance(data, tuple):
+                self.srv.plan('/' + rel, data)
+            elif data is None:
+                self.srv.plan('/' + rel, ('status', 404))
+            elif len(data) < len(full) and full.startswith(data):
+                self.srv.plan('/' + rel, ('cut', len(data)))      # whole-object Content-Length, body cut
+            else:
+                self.srv.put('/' + rel, data)
+            return
+        fn = os.path.join(self.tmp, rel)
+        if data is None:
+            os.remove(fn)
+        else:
+            with open(fn, 'wb') as f:
+                f.write(data)
+
+    def restore(self, name, idx, full, via_s3):
+        rel = self.rel(name, idx)
+        if via_s3:
+            self.srv.plan('/' + rel, None)
+            self.srv.put('/' + rel, full)
+            return
+        with open(os.path.join(self.tmp, rel), 'wb') as f:
+            f.write(full)
+
+    def load(self, via_s3):
+        import dask
+        from katdal.vis_flags_weights import ChunkStoreVisFlagsWeights
+        try:
+            with dask.config.set(scheduler='sync'):
+                if self.x is not None and not via_s3:
+                    d = self.x.d
+                    return ('ok', np.asarray(d.vis[:]), np.asarray(d.weights[:]), np.asarray(d.raw_flags[:]))
+                vfw = ChunkStoreVisFlagsWeights(self.s3 if via_s3 else self.store, self.info, preselect_index=self.index)
+                vis, weights, flags = dask.compute(vfw.vis, vfw.weights, vfw.flags)
+                return ('ok', vis, weights, flags)
+        except BaseException as e:   # noqa: B902
+            return ('raise', exn_index(e), repr(e)[:200])
+
+
+def dmg_scenarios(ctx, geo, st, n_random, every_chunk):
+    """List of scenarios; a scenario is a list of damages dict(array, idx, kind, offset)."""
+    rng = ctx.rng
+    out = []
+    chunks = geo['chunks']
+
+    def one(name, idx, kind=None):
+        full = st.original(name, idx)
+        arr = st.vals[name][_chunk_slices(chunks[name], idx)]
+        hdr_end = len(full) - arr.nbytes
+        kind = kind or rng.choice(['truncate'] * 6 + ['remove'] + ([] if geo.get('s3') else ['bad_magic']))
+        off = None
+        if kind == 'truncate':
+            off = rng.choice([k for k in (0, 1, 5, 6, 7, 8, 9, 10, 11, hdr_end - 1, hdr_end, hdr_end + 1, len(full) - 1,
+                                          rng.randrange(len(full)), rng.randrange(len(full))) if 0 <= k < len(full)])
+        return dict(array=name, idx=list(idx), kind=kind, offset=off)
+    if every_chunk:      # every chunk of every array once (which elements a damaged chunk covers is the point)
+        allc = [(name, idx) for name in ARRAYS for idx in _all_idx(chunks[name])]
+        if ctx.tier != 'thorough' and len(allc) > every_chunk:
+            allc = rng.sample(allc, every_chunk)
+        for name, idx in allc:
+            out.append([one(name, idx)])
+    if geo.get('s3'):    # the request for one chunk is refused: the load must fail with StoreUnavailable
+        for kind in sorted(DMG_STATUS):
+            name = rng.choice(ARRAYS)
+            out.append([one(name, rng.choice(_all_idx(chunks[name])), kind)])
+    for _ in range(n_random):
+        r = rng.random()
+        name = rng.choice(ARRAYS)
+        idx = rng.choice(_all_idx(chunks[name]))
+        if r < 0.5:
+            out.append([one(name, idx)])
+        elif r < 0.65:
+            out.append([one(name, idx, rng.choice(['bad_dtype', 'bad_shape'] + (sorted(DMG_STATUS) if geo.get('s3') else [])))])
+        else:            # several chunks at once, different arrays or the same
+            sc = [one(name, idx)]
+            for _ in range(rng.randint(1, 2)):
+                n2 = rng.choice(ARRAYS)
+                i2 = rng.choice(_all_idx(chunks[n2]))
+                if not any(d['array'] == n2 and d['idx'] == list(i2) for d in sc):
+                    sc.append(one(n2, i2, rng.choice(['truncate', 'truncate', 'remove', 'bad_dtype'])))
+            out.append(sc)
+    return out
+
+
+def dmg_wire(geo, st, scenario, via_s3):
+    dims = [geo['T'], geo['F']]
+    win = [dmg_norm_window(w, n) for w, n in zip(geo['pre'], dims)]
+    chunks = [geo['chunks'][k] for k in ARRAYS]
+    vals = st.vals
+    data = [_enc_vis(vals['correlator_data']).ravel().tolist(), vals['flags'].ravel().astype(int).tolist(),
+            vals['weights'].ravel().astype(int).tolist(), vals['weights_channel'].ravel().astype(int).tolist()]
+    files = []
+    for dm in scenario:
+        name, idx = dm['array'], tuple(dm['idx'])
+        full = st.original(name, idx)
+        sl = _chunk_slices(geo['chunks'][name], idx)
+        arr = vals[name][sl]
+        b = dmg_bytes(dm['kind'], dm['offset'], full, arr)
+        files.append([ARRAYS.index(name), _chunk_starts(geo['chunks'][name], idx), want_of(DMG_DT[name], arr.shape),
+                      IDX['K_AuthorisationFailed'] if isinstance(b, tuple) else [] if b is None else [list(b)]])
+    return [82, [3 if via_s3 else 1, chunks, win, data, files]]
+
+
+def dmg_check(ctx, geo, st, scenario, via_s3, mout):
+    """Apply the scenario, load, compare with model (tie) and spec (property), restore."""
+    vals = st.vals
+    fulls = []
+    labels = []
+    for dm in scenario:
+        name, idx = dm['array'], tuple(dm['idx'])
+        full = st.original(name, idx)
+        arr = vals[name][_chunk_slices(geo['chunks'][name], idx)]
+        fulls.append(full)
+        labels.append(dmg_fault_label(dm, len(full) - arr.nbytes))
+    try:
+        for dm, full in zip(scenario, fulls):
+            arr = vals[dm['array']][_chunk_slices(geo['chunks'][dm['array']], tuple(dm['idx']))]
+            st.apply(dm['array'], tuple(dm['idx']), dmg_bytes(dm['kind'], dm['offset'], full, arr), full, via_s3)
+        res = st.load(via_s3)
+    finally:
+        for dm, full in zip(scenario, fulls):
+            st.restore(dm['array'], tuple(dm['idx']), full, via_s3)
+    case = dict(part='vfw_damage', geo=geo, damages=scenario, via_s3=bool(via_s3), where=labels)
+    arrs = sorted({d['array'] for d in scenario})
+    kinds = sorted({d['kind'] for d in scenario})
+    grid = 'same_counts_shifted' if geo['style'].startswith('shifted') else 'identical' if geo['style'] == 'identical' else 'independent'
+    feats = 'part=vfw_damage;path=%s;store=%s;grid=%s;array=%s;fault=%s' % (
+        geo['path'], 's3' if via_s3 else 'npy', grid, arrs[0] if len(arrs) == 1 else 'several' if arrs else 'none',
+        kinds[0] if len(kinds) == 1 else 'several' if kinds else 'none')
+    must_fail, pv, pw, pf = dmg_py_spec(geo, vals, scenario)
+    spec = dict(vis=pv, weights=pw, flags=pf)
+    shape = pv.shape
+    model = None
+    errs = None
+    if mout is not None and mout != [-999]:
+        errs = mout[0]
+        n = int(np.prod(shape))
+        if tuple(mout[1]) != shape:
+            ctx.disagree(feats + ';symptom=model_shape', case, list(shape), mout[1], 'model window shape differs', kind='tie')
+        else:
+            model = dict(vis=np.array(mout[2], np.int64).reshape(shape), weights=np.array(mout[3], np.int64).reshape(shape),
+                         flags=np.array(mout[4], np.int64).reshape(shape))
+            cspec = dict(vis=np.array(mout[5], np.int64).reshape(shape), weights=np.array(mout[6], np.int64).reshape(shape),
+                         flags=np.array(mout[7], np.int64).reshape(shape))
+            for obs in ('vis', 'weights', 'flags'):
+                if not np.array_equal(cspec[obs], spec[obs]):
+                    ctx.disagree(feats + ';obs=%s;symptom=coq_spec_vs_numpy_spec' % obs, case, dmg_first_bad(spec[obs], cspec[obs]),
+                                 None, 'extracted spec differs from the numpy statement of the spec', kind='tie')
+            if bool(mout[8]) != must_fail:
+                ctx.disagree(feats + ';symptom=coq_must_fail_vs_numpy', case, must_fail, mout[8],
+                             'extracted spec_must_fail differs from the numpy statement', kind='tie')
+            if not mout[10]:     # the model then has an empty lost map: only the spec is compared below
+                ctx.disagree('part=vfw_damage;symptom=lost_map_source_not_modelled', case, None, None,
+                             'the lost-map section of vis_flags_weights.py is not the modelled code', kind='tie')
+                model = None
+        del n
+    ctx.traces_validated += 1
+    if res[0] == 'raise':
+        if errs is not None and res[1] not in errs:
+            ctx.disagree(feats + ';symptom=load_raises', case, 'raise ' + exn_label(res[1]) + ' ' + res[2],
+                         [exn_label(e) for e in errs], 'load raised an exception the model does not predict', kind='tie')
+        if must_fail:
+            from katdal.chunkstore import BadChunk, StoreUnavailable
+            want = set()
+            for dmx in scenario:
+                want.add(StoreUnavailable if dmx['kind'] in DMG_STATUS else BadChunk if dmx['kind'] in ('bad_dtype', 'bad_shape') else None)
+            want.discard(None)
+            cls = classes()[res[1]] if res[1] >= 0 else None
+            if cls is None or not any(issubclass(cls, w) for w in want):
+                ctx.disagree(feats + ';symptom=wrong_failure_class', case, 'raise ' + exn_label(res[1]) + ' ' + res[2],
+                             sorted(w.__name__ for w in want), 'the load failed, but not with BadChunk / StoreUnavailable')
+        if not must_fail:
+            if not is_chunkstore_error(res[1]):
+                ctx.disagree(feats + ';symptom=raw_exception', case, 'raise ' + exn_label(res[1]) + ' ' + res[2], 'data_lost or a ChunkStoreError',
+                             'a damaged chunk made the load fail with a raw (non chunk-store) exception')
+            elif errs is None:
+                ctx.disagree(feats + ';symptom=load_raises', case, 'raise ' + exn_label(res[1]) + ' ' + res[2], 'zero-filled + data_lost',
+                             'a damaged (undecodable) chunk made the load fail instead of being flagged', kind='tie')
+        return 'raise'
+    if must_fail:
+        ctx.disagree(feats + ';symptom=load_succeeds', case, 'load succeeded', 'raise BadChunk / StoreUnavailable',
+                     'a mismatched chunk / refused request inside the window did not make the load fail')
+        return 'ok'
+    if errs:
+        ctx.disagree(feats + ';symptom=load_succeeds', case, 'load succeeded', [exn_label(e) for e in errs],
+                     'load succeeded although the model says it raises', kind='tie')
+    impl = dict(vis=_enc_vis(res[1]), weights=np.asarray(res[2]).astype(np.float64), flags=np.asarray(res[3]).astype(np.int64))
+    if not np.array_equal(impl['weights'], np.rint(impl['weights'])):
+        ctx.disagree(feats + ';obs=weights;symptom=non_integral', case, None, None, 'weights are not the exact products')
+    impl['weights'] = impl['weights'].astype(np.int64)
+    for obs in ('vis', 'weights', 'flags'):
+        same = model is not None and np.array_equal(model[obs], spec[obs])     # then the property line below says it all
+        if model is not None and not errs and not same and (impl[obs].shape != shape or not np.array_equal(impl[obs], model[obs])):
+            ctx.disagree(feats + ';obs=%s;tie;symptom=%s' % (obs, dmg_classify(obs, impl[obs], model[obs])), case,
+                         dmg_first_bad(impl[obs], model[obs]), None, 'katdal differs from the model on ' + obs, kind='tie')
+        if impl[obs].shape != shape or not np.array_equal(impl[obs], spec[obs]):
+            fb = dmg_first_bad(impl[obs], spec[obs])
+            ctx.disagree(feats + ';obs=%s;symptom=%s' % (obs, dmg_classify(obs, impl[obs], spec[obs])), case, fb, None,
+                         'loaded %s differ from "zero-filled and data_lost exactly on the damaged chunks"' % obs, spec=fb)
+    return 'ok'
+
+
+def dmg_open(ctx, geo, d, srv):
+    """Write the data set and open it; a healthy store that cannot be opened is a violation in itself."""
+    try:
+        return _DmgStore(geo, d, srv if geo.get('s3') else None)
+    except Exception as e:
+        ctx.disagree('part=vfw_damage;path=%s;symptom=open_raises:%s' % (geo['path'], type(e).__name__),
+                     dict(part='vfw_damage', geo=geo, damages=[], via_s3=bool(geo.get('s3'))), repr(e)[:300], None,
+                     'a healthy data set with these chunkings could not be written / opened')
+        ctx.note_case(('vfw_damage_open', str(geo)), nontrivial=False)
+        return None
+
+
+def dmg_run_geometry(ctx, geo, tmp, srv, n_random, every_chunk, tag):
+    d = os.path.join(tmp, 'dmg_%s' % tag)
+    st = dmg_open(ctx, geo, d, srv)
+    if st is None:
+        shutil.rmtree(d, ignore_errors=True)
+        return
+    try:
+        scen = dmg_scenarios(ctx, geo, st, n_random, every_chunk)
+        dmg_run_scenarios(ctx, geo, st, scen)
+    finally:
+        shutil.rmtree(d, ignore_errors=True)
+
+
+def dmg_run_scenarios(ctx, geo, st, scen):
+    via = bool(geo.get('s3'))
+    mouts = ctx.model([dmg_wire(geo, st, sc, via) for sc in scen]) if ctx.model_ok else [None] * len(scen)
+    # healthy store first: nothing flagged, nothing zeroed
+    m0 = ctx.model([dmg_wire(geo, st, [], via)])[0] if ctx.model_ok else None
+    dmg_check(ctx, geo, st, [], via, m0)
+    for sc, mo in zip(scen, mouts):
+        out = dmg_check(ctx, geo, st, sc, via, mo)
+        key = (geo['path'], via, geo['T'], geo['F'], geo['B'], str(geo['chunks']), str(geo['pre']),
+               tuple((d['array'], tuple(d['idx']), d['kind'], d['offset']) for d in sc))
+        straddle = geo['style'].startswith('shifted') or geo['style'] in ('random', 'finer')
+        ctx.note_case(key, nontrivial=True,
+                      sample=dict(style=geo['style'], path=geo['path'], chunks=geo['chunks'], pre=geo['pre'], damages=sc, outcome=out)
+                      if straddle and len(sc) == 1 and sc[0]['kind'] == 'truncate' else None)
+        ctx.count('vfw_damage:grid=' + geo['style'])
+        ctx.count('vfw_damage:path=' + geo['path'] + (':s3' if via else ''))
+        ctx.count('vfw_damage:n_damaged=%d' % len(sc))
+        ctx.count('vfw_damage:outcome=' + out)
+        for dmn in sc:
+            ctx.count('vfw_damage:kind=' + dmn['kind'])
+
+
+def part_vfw_damage(ctx, tmp, only=None):
+    srv = None
+    try:
+        if only is not None:
+            geo, scen = only
+            if geo.get('s3'):
+                srv = c08_s3fake.FakeS3()
+            d = os.path.join(tmp, 'dmg_replay')
+            st = dmg_open(ctx, geo, d, srv)
+            if st is not None:
+                dmg_run_scenarios(ctx, geo, st, [scen] if scen else [])
+            return
+        thorough = ctx.tier == 'thorough'
+        # fixed: the geometry of the missed seeded change (same block counts, shifted boundaries) on each path
+        plan = [('shifted_time', 'vfw', False, True), ('shifted_freq', 'vfw', False, True), ('shifted_both', 'vfw', False, True),
+                ('shifted_both', 'v4', False, True), ('identical', 'vfw', False, False), ('random', 'vfw', False, True),
+                ('finer', 'v4', False, False), ('shifted_time', 'vfw', True, False), ('random', 'vfw', True, False)]
+        for _ in range(ctx.scale(3, 60)):
+            plan.append((ctx.rng.choice(DMG_STYLES), ctx.rng.choice(['vfw', 'vfw', 'v4']), ctx.rng.random() < 0.2,
+                         ctx.rng.random() < 0.5))
+        for gi, (style, path, s3, every) in enumerate(plan):
+            if s3 and srv is None:
+                srv = c08_s3fake.FakeS3()
+            geo = dmg_geometry(ctx.rng, style, 'vfw' if s3 else path)
+            geo['s3'] = bool(s3)
+            dmg_run_geometry(ctx, geo, tmp, srv, (12 if thorough else 5) if not s3 else (8 if thorough else 4),
+                             (24 if gi < 4 else 10) if every else 0, str(gi))
+    finally:
+        if srv is not None:
+            srv.close()
 
 
 # ------------------------------------------------------------------------------------------------
@@ -1553,6 +2094,7 @@ def run(ctx):
         part_mismatch(ctx, tmp)
         part_npy_store_faults(ctx, tmp)
         part_vfw(ctx, tmp)
+        part_vfw_damage(ctx, tmp)
         part_put(ctx, tmp)
         part_put_limit(ctx, tmp)
         ctx.exhaustive = False
@@ -1571,6 +2113,7 @@ def search_without_model(ctx, tmp):
     store = NpyFileChunkStore(d)
     part_mismatch(ctx, tmp)
     part_vfw(ctx, tmp)
+    part_vfw_damage(ctx, tmp)
     part_put_limit(ctx, tmp)
     for dt, shape in GEOMS_QUICK:
         x = make_chunk(dt, shape, 3)
@@ -1613,6 +2156,8 @@ def replay(ctx, doc):
             part_npy_store_faults(ctx, tmp)
         elif part == 'vfw':
             part_vfw(ctx, tmp)
+        elif part == 'vfw_damage':
+            part_vfw_damage(ctx, tmp, only=(case['geo'], case['damages']))
         elif part in ('put_trace', 'put_fault'):
             part_put(ctx, tmp)
         elif part == 'put_limit':
